@@ -429,6 +429,7 @@ pub struct Stats {
     pub sessions: u64,
     pub restarts: u64,
     pub x_refreshes: u64,
+    pub x_captures_adopted_from_engine: u64,
     pub unchanged_sessions: u64,
     pub dropped_executions: u64,
     /// query returns right after a restart for which no executor ran at all
@@ -617,6 +618,21 @@ impl Oracle {
             }
         }
         mention.retain(|n| n.kind != Kind::In || self.refr.inputs.contains_key(&n.idx));
+        // An external-input executor captures its cell when the *engine* first runs it - which
+        // can be inside a partial execution the engine aborts itself (sibling repairs of an
+        // unordered group) and that the reference never demands. The capture is adopted from the
+        // engine's own record (the from-scratch semantics does not say *when* an external input
+        // is first read; that it is not re-run without a refresh is C03's rule, judged below).
+        for r in recs {
+            if r.node.kind == Kind::X {
+                if let ExecResult::Value(v) = &r.result {
+                    if !self.refr.xcap.contains_key(&r.node.idx) {
+                        self.refr.xcap.insert(r.node.idx, *v);
+                        self.stats.x_captures_adopted_from_engine += 1;
+                    }
+                }
+            }
+        }
         let now = self.peek(&mention);
         for r in recs {
             self.stats.exec_records += 1;
